@@ -397,6 +397,50 @@ def write_conf_only(root, file_settings, shape):
         json.dump(doc, f, indent=2)
 
 
+def part_e(d):
+    """sequences of `init` over one tauri.conf.json: every ordered pair of init settings (library x verbose x
+    visualisation x generated path), the second run on the document the first one left; after each run the entry read
+    back must hold that run's settings and every other key of the document must be what it was"""
+    settings = [{"library": l_, "verbose": v_, "viz": z_, "gen": g_} for l_ in ("none", "zod") for v_ in (False, True) for z_ in (False, True)
+                for g_ in ("./src/generated", "./web/bindings")]
+    seqs = [(a, b) for a in settings for b in settings if a != b]
+    rest = {"productName": "demo \u00e9\u20ac \"quoted\"", "version": "1.0.0", "build": {"frontendDist": "../dist", "big": 18446744073709551615, "neg": -9223372036854775808},
+            "plugins": {"shell": {"open": True}, "fs": {"scope": ["a", "b"]}}}
+
+    def canon(tg):
+        return {"projectPath": str(tg.get("projectPath")), "outputPath": str(tg.get("outputPath")), "validationLibrary": str(tg.get("validationLibrary")),
+                "verbose": "true" if tg.get("verbose") else "false", "visualizeDeps": "true" if tg.get("visualizeDeps") else "false"}
+
+    def work(iseq):
+        i, seq = iseq
+        root = os.path.join(d, "iseq-%d" % i)
+        rustgen.write_project(root, {"src-tauri/src/lib.rs": rustgen.PRELUDE + "#[tauri::command]\npub fn hello() {}\n",
+                                     "src-tauri/tauri.conf.json": json.dumps(rest, indent=2)})
+        evs = []
+        for step, st_ in enumerate(seq):
+            args = ["init", "-p", "./src-tauri", "-g", st_["gen"], "-v", st_["library"]] + (["--verbose"] if st_["verbose"] else []) + (["--visualize-deps"] if st_["viz"] else [])
+            r = runner.cli(args, root)
+            try:
+                doc = json.load(open(os.path.join(root, "src-tauri", "tauri.conf.json")))
+            except Exception:
+                doc = {}
+            tg = (doc.get("plugins") or {}).get("typegen") or {}
+            others = json.loads(json.dumps(doc))
+            if isinstance(others.get("plugins"), dict):
+                others["plugins"].pop("typegen", None)
+            written = {"projectPath": "./src-tauri", "outputPath": st_["gen"], "validationLibrary": st_["library"],
+                       "verbose": "true" if st_["verbose"] else "false", "visualizeDeps": "true" if st_["viz"] else "false"}
+            evs.append({"event": "InitSeq", "case": "iseq%d/step%d" % (i, step), "rejected": r.rc != 0, "written": written, "loaded": canon(tg) if tg else {"_none": "-"},
+                        "restPreserved": others == rest, "sequence": [dict(x) for x in seq[:step + 1]]})
+        shutil.rmtree(root, ignore_errors=True)
+        return evs
+    out = []
+    with ThreadPoolExecutor(max_workers=12) as ex:
+        for evs in ex.map(work, enumerate(seqs)):
+            out.extend(evs)
+    return out
+
+
 def part_c(d):
     """`init` with an unsupported library / a missing project path, for every kind of configuration target"""
     evs = []
@@ -449,7 +493,8 @@ def run(tier, seed):
     eb, ncombos, nrej = part_b(d, tier, seed)
     ec = part_c(d)
     ed = part_d(d)
-    events = ea + eb + ec + ed
+    ee = part_e(d)
+    events = ea + eb + ec + ed + ee
     mism_all = []
     CH = 4000
     for ci in range(0, len(events), CH):
@@ -469,6 +514,10 @@ def run(tier, seed):
             verdicts.reject("doc plugins=%s what=%s" % (ev["plugins"], w0), detail[:160],
                             "save_to_tauri_config/from_tauri_config on a document with plugins=%s: %s %s" % (ev["plugins"], w0, detail[:200]),
                             {"case": ev["case"], "before": ev["before"], "written": ev["written"]})
+        elif ev["event"] == "InitSeq":
+            verdicts.reject("init-sequence what=%s" % (why[0] if isinstance(why, list) else str(why))[:60], str(why[1:] if isinstance(why, list) else "")[:160],
+                            "after the `init` sequence %s the document's typegen entry reads %s, this run wrote %s (rest of the document preserved: %s)"
+                            % (json.dumps(ev["sequence"]), ev["loaded"], ev["written"], ev["restPreserved"]), ev)
         elif ev["event"] == "InitRun":
             verdicts.reject("init target=%s library=%s project=%s" % (ev["target"], "valid" if ev["library"] in ("zod", "none") else "invalid", ev["project"]),
                             "rejected=%s mutated=%s" % (ev["rejected"], ev["mutated"]),
@@ -494,7 +543,7 @@ def run(tier, seed):
                 "(B) %d of %d TLC-enumerated flag/file combinations (+%d with one invalid value) run twice on the real CLI; "
                 "distinct = distinct (shape, fill) / (flags, file)" % (nshapes, len(eb) - nrej, ncombos, nrej),
         "samples": [{"case": e["case"], "plugins": e.get("plugins"), "flags": e.get("flags"), "file": e.get("file")} for e in events[:: max(1, len(events) // 6)][:6]],
-        "documents": len(ea), "precedence_runs": len(eb), "build_sequence_runs": len(ed),
+        "documents": len(ea), "precedence_runs": len(eb), "build_sequence_runs": len(ed), "init_sequence_runs": len(ee),
         "traces_validated_against_impl": len(events),
         "known_findings_matched": len(verdicts.known_hit),
         "exhaustive": tier == "thorough",
